@@ -125,6 +125,8 @@ struct GenOpts {
     bool allow_threads = true;
     bool dup_heavy = false;  ///< C11: more and longer duplicate runs
     bool unsigned_only = false;
+    bool smooth_curves = false;    ///< segmentation engines: 1 array in 12 (size hint >= 60) is a smooth convex / concave curve x_i = A*i + C*i^p tuned to stay
+                                   ///< within a fraction of epsilon of a line: the builder's convex hulls then keep (almost) every point
     bool pow2_sizes = false;       ///< 1 array in 30 has exactly 2^k - 1, 2^k or 2^k + 1 keys, k = 10..19 (block-wise copy / chunk arithmetic edges)
     bool ef_bimodal = false;       ///< Elias-Fano: about 1 case in 250: >= 10^5 minimal segments packed into a tiny part of a huge key space (select long-superblock path)
     bool allow_giant = false;      ///< about 1 case in 400: n around / above 2^24 built from <= 300 distinct keys with huge duplicate runs (ranks > 2^24)
@@ -219,6 +221,45 @@ std::vector<K> gen_keys(TapeReader &t, const GenOpts &o, KeyMeta &meta) {
         meta.recipe = rec.str();
         for (size_t i = 1; i < keys.size(); ++i)
             if (keys[i] < keys[i - 1]) throw HarnessBug("bimodal class: unsorted");
+        keys.shrink_to_fit();
+        return keys;
+    }
+
+    // ---- "smooth" class: hull-heavy inputs for the segmentation builder
+    if (o.smooth_curves && !o.xkeys && sizeof(K) == 8 && !std::is_floating_point_v<K> && o.size_hint >= 60 && t.chance(1, 12)) {
+        size_t n = o.size_hint >= 85 ? 60000 + t.below(140000) : 300 + t.below(20000);
+        n = std::min(n, o.max_n);
+        static const double ps[] = {1.5, 2.0, 0.5, 3.0, 1.2};
+        double pw = ps[t.below(5)];
+        double A = std::ldexp(1.0, 4 + (int) t.below(36));              // base gap 2^4 .. 2^39
+        double delta = (1 + t.below(40)) / 10.0;                         // total rank deviation = delta * eps (0.1 .. 4 eps: 1..several segments)
+        double Cc = delta * (double) std::max<size_t>(eps, 1) * A / std::pow((double) n, pw);
+        bool concave = t.chance(1, 2);
+        meta.threads = o.allow_threads ? 1 + (int) t.below(20) : 1;
+        std::vector<K> keys(n);
+        i128 base = lat.lo + (i128) t.below(1000);
+        long double prev = -1;
+        for (size_t i = 0; i < n; ++i) {
+            long double j = concave ? (long double) (n - i) : (long double) i;
+            long double x = (long double) A * i + (concave ? -1 : 1) * (long double) Cc * (std::pow(j, (long double) pw) - (concave ? std::pow((long double) n, (long double) pw) : 0));
+            x = std::floor(x);
+            if (x <= prev) x = prev + 1; // strictly increasing
+            prev = x;
+            i128 v = base + (i128) x;
+            if (v > lat.hi) {
+                keys.resize(i);
+                break;
+            }
+            keys[i] = lat.to_key(v);
+        }
+        if (keys.empty()) keys.push_back(lat.to_key(base));
+        meta.n = keys.size();
+        meta.size_class = "smooth";
+        meta.chunks = chunk_count(meta.n, meta.threads);
+        for (size_t i = 1; i < meta.chunks; ++i) meta.seams.push_back(i * (meta.n / meta.chunks));
+        meta.query_seed = t.bits(64);
+        rec << "class=smooth n=" << meta.n << " x_i=" << A << "*i" << (concave ? "-" : "+") << Cc << "*i^" << pw << " (deviation " << delta << "*eps) threads=" << meta.threads;
+        meta.recipe = rec.str();
         keys.shrink_to_fit();
         return keys;
     }
